@@ -2,6 +2,7 @@ import Holpy.Common.Sexp
 import Holpy.C04.Model
 import Holpy.Kernel.Wire
 import Holpy.C04.MacroModel
+import Holpy.C04.MacroModel2
 /-
 Line protocol for the C04 model (one s-expression in, one out):
   (export PFX PT)               -> (ok (ITEM ...)) | (error KIND)
@@ -17,6 +18,10 @@ TABLE = ((RULE ARGS (SEQ ...) SEQ) ...)   finite graph of evalRule; absent -> no
   (macro trivial TERM)                         -> (ok EVAL (STEP ...) RUN)      macro models on the kernel model
   (macro intros (THM ...))                     -> idem   (the last THM is the proved statement)
   (macro apply_theorem NAME THM INST (THM ...))-> idem   (THM = the stored theorem, INST = (inst TY SV VS))
+  (macro intros_vars (THM ...))                -> idem   (`_VAR` premises allowed)
+  (macro apply_theorem_svars NAME THM INST INST0 (THM ...)) -> idem  (INST = the matcher's answer from INST0; remaining svars generalised)
+  (macro forall_elim_gen TERM (THM ...))       -> idem   (script: the beta-normal branch)
+  (macro apply_fact_for (TERM ...) (THM ...))  -> idem   (the first THM is the fact)
 EVAL = THM | none; STEP = (RULE ARG (pos ...)); RUN = last theorem of the script run by `runScriptAx` | (error KIND)
 -/
 open Holpy Holpy.C04
@@ -115,6 +120,27 @@ def handleMacro : List Sexp → String
     | some a, some (.inst i), some l =>
       macroAnswer (Macro.applyTheoremEval [(name, a)] name i l) (Macro.applyTheoremScript name i l.length) [(name, a)] l
     | _, _, _ => "bad-op"
+  | [.atom "intros_vars", .list ths] =>
+    match ths.mapM Wire.thmOf with
+    | some l =>
+      match l.getLast? with
+      | some body => macroAnswer (Macro.introsVEval l.dropLast body) (Macro.introsVScript l.dropLast) [] l
+      | none => "bad-op"
+    | none => "bad-op"
+  | [.atom "apply_theorem_svars", .atom name, ax, inst, inst0, .list ths] =>
+    match Wire.thmOf ax, Wire.argOf inst, Wire.argOf inst0, ths.mapM Wire.thmOf with
+    | some a, some (.inst i), some (.inst i0), some l =>
+      macroAnswer (Macro.applyTheoremForEval [(name, a)] (fun _ _ => some i) name i0 l)
+        (Macro.applyTheoremForScript [(name, a)] (fun _ _ => some i) name i0 l) [(name, a)] l
+    | _, _, _, _ => "bad-op"
+  | [.atom "forall_elim_gen", t, .list ths] =>
+    match Wire.termOf t, ths.mapM Wire.thmOf with
+    | some s, some l => macroAnswer (Macro.forallElimGenEval 100000 s l) (Macro.forallElimGenScript s) [] l
+    | _, _ => "bad-op"
+  | [.atom "apply_fact_for", .list ts, .list ths] =>
+    match ts.mapM Wire.termOf, ths.mapM Wire.thmOf with
+    | some args, some l => macroAnswer (Macro.applyFactForEval 100000 args l) (Macro.applyFactForScript args (l.length - 1)) [] l
+    | _, _ => "bad-op"
   | _ => "bad-op"
 
 def handle (line : String) : String :=
